@@ -292,7 +292,9 @@ def run_case(case):
         for r in sorted(set(base)):
             try:
                 if an == "blocked":
-                    single[r] = [1 if r in find_blocked_reactions(model, [model.reactions.get_by_id(r)], processes=1) else 0]
+                    got = list(find_blocked_reactions(model, [model.reactions.get_by_id(r)], processes=1))
+                    # 7: the call for this item alone reported reactions that were not asked for
+                    single[r] = [7] if any(x != r for x in got) else [1 if r in got else 0]
                 else:
                     d = flux_variability_analysis(model, [r], fraction_of_optimum=frac, processes=1)
                     single[r] = [0, fr(d.at[r, "minimum"]), fr(d.at[r, "maximum"])]
